@@ -161,6 +161,17 @@ CLAIMS = {
         note=TRUST,
         technique="static analysis: parameter-use flow and CFG reachability checks, read-only call accounting",
         ref="DESIGN.md section 4 C18"),
+    "C19": dict(
+        text="Static analysis, thin: E-ZONE under the class invariant index_ <= MaxIndex() (assumed on entry, proven "
+             "on every exit, re-assumed after calls) proves storage_[e] in range for the BigInt members whose index "
+             "arithmetic fits difference bounds (the others are named as not decided); scan loops over storage_[i] "
+             "bound i in their own condition, bound first; the bit scans scan and scale the same word; DoubleSize "
+             "8/16/32 siblings agree and their shift equals the word width; Add/Subtract mirror; platform builtins "
+             "match operand widths. Does not decide arithmetic exactness.",
+        note=TRUST + "Members not decided for storage bounds: ShiftLeft/ShiftRight block moves, Multiply, Divide, "
+             "doOperation, copy, SetIndex (caller contract).",
+        technique="static analysis: difference-bound abstract interpretation with a class invariant, scan-shape and sibling checks",
+        ref="DESIGN.md section 4 C19"),
     "C20": dict(
         text="Static analysis, partial but exhaustive over code points: every CFG path of the three "
              "UnicodeToUTF::ToUTF specialisations is summarised in a bit-level abstract domain (interval of the code "
